@@ -611,9 +611,9 @@ class TempoBackend(BaseTempoBackend):
         """
         ToDo
         """
-        self._step = 0
         self.initialize_mps_mpo()
         self._state = self._initial_state
+        self._step = 0
         return self._step, copy(self._state)
 
     def compute_step(self) -> Tuple[int, ndarray]:
@@ -738,9 +738,9 @@ class MeanFieldTempoBackend():
 
     def initialize(self) -> Tuple[int, ndarray, complex]:
         """Initialize each TEMPO instance. """
-        self._step = 0
         for backend in self._backend_list:
             backend.initialize_mps_mpo()
+        self._step = 0
         return self._step, deepcopy(self._state_list), self._field
 
     def compute_step(self) -> Tuple[int, List[ndarray], complex]:
